@@ -33,8 +33,12 @@ pub const ABC: [&[u8]; 3] = [b"\r", b"\n", b"x"];
 pub struct Case {
     pub p: Vec<u8>,
     pub key: KeyKind,
-    /// 0 SHA-256, 1 SHA-512, 2 SHA-384, 3 SHA3-256
+    /// 0 SHA-256, 1 SHA-512, 2 SHA-384, 3 SHA3-256, 4 SHA3-512, 5 SHA-224, 6 SHA-1, 7 RIPEMD-160, 8 MD5
     pub hash: u8,
+    /// the library may refuse to sign with this key / hash combination (that is its policy, not
+    /// this property); whatever it does sign must verify everywhere
+    #[serde(default)]
+    pub may_refuse: bool,
 }
 
 fn hash_of(h: u8) -> HashAlgorithm {
@@ -42,18 +46,103 @@ fn hash_of(h: u8) -> HashAlgorithm {
         0 => HashAlgorithm::Sha256,
         1 => HashAlgorithm::Sha512,
         2 => HashAlgorithm::Sha384,
-        _ => HashAlgorithm::Sha3_256,
+        3 => HashAlgorithm::Sha3_256,
+        4 => HashAlgorithm::Sha3_512,
+        5 => HashAlgorithm::Sha224,
+        6 => HashAlgorithm::Sha1,
+        7 => HashAlgorithm::Ripemd160,
+        _ => HashAlgorithm::Md5,
     }
+}
+
+/// Third-party certifications across key kinds and versions.
+#[derive(Clone, Debug, Hash, Serialize, Deserialize)]
+pub struct CertCase {
+    pub signer: KeyKind,
+    pub signee: KeyKind,
+    pub attribute: bool,
+}
+
+fn run_third_party(c: &CertCase) -> Outcome {
+    use pgp::packet::{SignatureConfig, SignatureType};
+    use pgp::types::{KeyDetails, KeyVersion, Tag};
+    let signer = common::cert(c.signer, 1);
+    let signee = common::cert(c.signee, 2);
+    let sk = &signer.primary_key;
+    // strong enough for every key kind (P-384 / P-521 / Ed448 refuse shorter digests)
+    let hash = HashAlgorithm::Sha512;
+    let cfg = match sk.version() {
+        KeyVersion::V6 => SignatureConfig::v6(crate::engine::rng(4), SignatureType::CertPositive, sk.algorithm(), hash),
+        _ => Ok(SignatureConfig::v4(SignatureType::CertPositive, sk.algorithm(), hash)),
+    };
+    let what = format!("{:?} certifies a user {} of {:?}", c.signer, if c.attribute { "attribute" } else { "id" }, c.signee);
+    let Ok(cfg) = cfg else { return Outcome::bad("C06:third-party:config-error", what) };
+    let uid = crate::common::sigs::uid_from_bytes(b"Carol <carol@example.org>").expect("uid");
+    let ua = crate::common::sigs::user_attr(b"jpeg-octets");
+    let pw = Password::empty();
+    let signee_pub = signee.primary_key.public_key();
+    let sig = if c.attribute {
+        cfg.sign_certification_third_party(sk, &pw, signee_pub, Tag::UserAttribute, &ua)
+    } else {
+        cfg.sign_certification_third_party(sk, &pw, signee_pub, Tag::UserId, &uid)
+    };
+    let sig = match sig {
+        Ok(s) => s,
+        Err(e) => return Outcome::bad("C06:third-party:sign-error", format!("{what}: {e}")),
+    };
+    let mut o = Outcome::ok("verifies");
+    let mut check = |iface: &str, r: Result<(), String>| {
+        if let Err(e) = r {
+            o.push(format!("C06:third-party->{iface}"), format!("{what}: {e}"));
+        }
+    };
+    let signer_pub = sk.public_key();
+    check(
+        "Signature::verify_third_party_certification",
+        es(if c.attribute {
+            sig.verify_third_party_certification(signee_pub, signer_pub, Tag::UserAttribute, &ua)
+        } else {
+            sig.verify_third_party_certification(signee_pub, signer_pub, Tag::UserId, &uid)
+        }),
+    );
+    // after a trip over the wire
+    let reparsed = es(sig.to_bytes()).and_then(|b| crate::common::sigs::sig_from_body(&b));
+    check(
+        "to_bytes->parse->verify_third_party_certification",
+        reparsed.and_then(|s2| {
+            es(if c.attribute {
+                s2.verify_third_party_certification(signee_pub, signer_pub, Tag::UserAttribute, &ua)
+            } else {
+                s2.verify_third_party_certification(signee_pub, signer_pub, Tag::UserId, &uid)
+            })
+        }),
+    );
+    if !c.attribute {
+        // as part of the signee's certificate: SignedUser::verify_third_party
+        let su = pgp::types::SignedUser::new(uid.clone(), vec![sig.clone()]);
+        check("SignedUser::verify_third_party", es(su.verify_third_party(signee_pub, signer_pub)));
+    } else {
+        let su = pgp::types::SignedUserAttribute::new(ua.clone(), vec![sig.clone()]);
+        check("SignedUserAttribute::verify_third_party", es(su.verify_third_party(signee_pub, signer_pub)));
+    }
+    o.evals = 3;
+    o
 }
 
 struct Acc {
     o: Outcome,
     pairs: u64,
     p: Vec<u8>,
+    may_refuse: bool,
+    refused: u64,
 }
 
 impl Acc {
     fn fail(&mut self, sign_if: &str, verify_if: &str, e: impl std::fmt::Display) {
+        if self.may_refuse && matches!(verify_if, "sign" | "to_vec" | "to_armored_string" | "data_mode") {
+            self.refused += 1;
+            return;
+        }
         let class = if self.p.last() == Some(&b'\r') {
             ":payload-ends-in-lone-CR"
         } else {
@@ -193,6 +282,8 @@ fn run(c: &Case) -> Outcome {
         },
         pairs: 0,
         p: c.p.clone(),
+        may_refuse: c.may_refuse,
+        refused: 0,
     };
 
     // A/B: detached binary and text
@@ -383,7 +474,10 @@ fn run(c: &Case) -> Outcome {
         }
     }
 
-    a.o.evals = a.pairs;
+    a.o.evals = a.pairs.max(1);
+    if c.may_refuse && a.o.viol.is_empty() {
+        a.o.class = if a.pairs == 0 { "refused-to-sign".into() } else if a.refused > 0 { "partly-refused:rest-verifies".into() } else { "all-pairs-verify".into() };
+    }
     a.o
 }
 
@@ -404,11 +498,13 @@ pub fn check(ctx: &Ctx) {
             p: p.clone(),
             key: KeyKind::Ed25519V4,
             hash: (i % 2) as u8,
+            may_refuse: false,
         });
         cases.push(Case {
             p: p.clone(),
             key: KeyKind::Ed25519V6,
             hash: ((i + 1) % 2) as u8,
+            may_refuse: false,
         });
         if p.len() <= 2 || (!quick && p.len() <= 3) {
             for (key, hash) in [
@@ -425,6 +521,7 @@ pub fn check(ctx: &Ctx) {
                     p: p.clone(),
                     key,
                     hash,
+                    may_refuse: false,
                 });
             }
         }
@@ -437,6 +534,7 @@ pub fn check(ctx: &Ctx) {
                     p: format!("{pre}{l}{post}").into_bytes(),
                     key: KeyKind::Ed25519V4,
                     hash: 0,
+                    may_refuse: false,
                 });
             }
         }
@@ -454,6 +552,7 @@ pub fn check(ctx: &Ctx) {
                     p,
                     key: KeyKind::Ed25519V4,
                     hash: 0,
+                    may_refuse: false,
                 });
             }
         }
@@ -472,6 +571,54 @@ pub fn check(ctx: &Ctx) {
     }
     common::cert(KeyKind::Ed25519V4, 2);
     common::cert(KeyKind::Ed25519V6, 2);
+    // key kind x hash algorithm, completely
+    let all_kinds = [
+        KeyKind::Ed25519V4,
+        KeyKind::Ed25519V6,
+        KeyKind::Ed25519LegacyV4,
+        KeyKind::Ed448V6,
+        KeyKind::EcdsaP256V4,
+        KeyKind::EcdsaP256V6,
+        KeyKind::EcdsaP384V4,
+        KeyKind::EcdsaP521V4,
+        KeyKind::EcdsaK256V4,
+        KeyKind::Rsa2048V4,
+        KeyKind::Rsa2048V6,
+    ];
+    for k in all_kinds {
+        common::cert(k, 1);
+        common::cert(k, 2);
+    }
+    let mut matrix = Vec::new();
+    for key in all_kinds {
+        for hash in 0..=8u8 {
+            for p in [&b""[..], b"ab\nc \r\n-d"] {
+                matrix.push(Case { p: p.to_vec(), key, hash, may_refuse: true });
+            }
+        }
+    }
+    ctx.run_space(
+        "key_x_hash_matrix",
+        true,
+        "ALL 11 key kinds (Ed25519 v4/v6/legacy, Ed448, ECDSA P-256 v4/v6, P-384, P-521, secp256k1, RSA-2048 v4/v6) x ALL 9 hash algorithms (SHA-256/512/384, SHA3-256/512, SHA-224, SHA-1, RIPEMD-160, MD5) x 2 payloads through every sign interface; a combination the library refuses to sign with is its policy - every signature it does produce must verify through every interface",
+        matrix.into_par_iter(),
+        run,
+    );
+    let mut tp = Vec::new();
+    for signer in all_kinds {
+        for signee in all_kinds {
+            for attribute in [false, true] {
+                tp.push(CertCase { signer, signee, attribute });
+            }
+        }
+    }
+    ctx.run_space(
+        "third_party_certifications",
+        true,
+        "third-party certifications (0x13) by each of 11 key kinds over a user id / user attribute of each of 11 key kinds (all 121 pairs incl. v4 certifying v6 and v6 certifying v4): sign_certification_third_party, then Signature::verify_third_party_certification directly, after to_bytes -> parse, and SignedUser::verify_third_party",
+        tp.into_par_iter(),
+        run_third_party,
+    );
     ctx.run_space(
         "sign_x_verify",
         true,
@@ -483,7 +630,8 @@ pub fn check(ctx: &Ctx) {
 
 pub fn replay(space: &str, case: &Value) -> Option<Outcome> {
     match space {
-        "sign_x_verify" => replay_as(case, run),
+        "sign_x_verify" | "key_x_hash_matrix" => replay_as(case, run),
+        "third_party_certifications" => replay_as(case, run_third_party),
         _ => None,
     }
 }
